@@ -150,6 +150,20 @@ pub fn lib_source(spec: &Value) -> String {
         exports.push(format!("(rename hi-{} lo-{})", s, s));
         exports.push(format!("(rename lo-{} hi-{})", s, s));
     }
+    // one binding under two external names; a procedure that hands out a PRIVATE procedure
+    if spec["twins"].as_bool().unwrap_or(false) {
+        exports.push(format!("(rename next-{}! again-{}!)", s, s));
+        body.push(format!("(define (get-helper-{}) helper)", s));
+        exports.push(format!("get-helper-{}", s));
+    }
+    // a body that has an effect while it is being loaded: it calls a dependency's procedure,
+    // once, in the order of the definitions
+    if spec["load_effect"].as_bool().unwrap_or(false) {
+        if let Some(j) = imports.iter().find(|j| j.as_str() != "zz" && j.as_str() != s) {
+            body.push(format!("(define loaded-{} ({}))", s, dep_next_name(spec, j)));
+            exports.push(format!("loaded-{}", s));
+        }
+    }
     // an exported constant, and (optionally) a re-export of a dependency's procedure
     exports.push(format!("(rename k const-{})", s));
     body.push(format!("(define k {})", 700 + spec["k"].as_i64().unwrap_or(1)));
@@ -540,6 +554,8 @@ fn gen_lib(rng: &mut Rng, short: &str, imports: Vec<String>, health: &str, allow
         "layout": rng.below(8),
         "layout_other": layout_other,
         "decl_shape": rng.below(6),
+        "twins": rng.chance(1, 3),
+        "load_effect": rng.chance(1, 3),
     })
 }
 
@@ -593,6 +609,17 @@ fn external_names(spec: &Value) -> Vec<(String, String)> {
     v.push((format!("use-twice-{}", s), "use-helper".to_string()));
     if spec["spoiler"].as_bool().unwrap_or(false) {
         v.push((format!("spoil-{}!", s), "spoil".to_string()));
+    }
+    if spec["twins"].as_bool().unwrap_or(false) {
+        v.push((format!("again-{}!", s), "next".to_string()));
+        v.push((format!("get-helper-{}", s), "get-helper".to_string()));
+    }
+    if spec["load_effect"].as_bool().unwrap_or(false) {
+        if let Some(im) = spec["imports"].as_array() {
+            if im.iter().filter_map(|x| x.as_str()).any(|j| j != "zz" && j != s) {
+                v.push((format!("loaded-{}", s), "const".to_string()));
+            }
+        }
     }
     if spec["collide"].as_bool().unwrap_or(false) {
         v.push((format!("use-aux-{}", s), "use-helper".to_string()));
@@ -763,6 +790,8 @@ pub fn generate_c13(seed: u64, quick: bool) -> Value {
                     } else {
                         ("box-read".to_string(), format!("(vector-ref {} 0)", name))
                     }
+                } else if v.kind == "get-helper" {
+                    ("call-private-procedure-handed-out".to_string(), format!("(({}) {})", name, rng.range(0, 20)))
                 } else if v.kind == "const" {
                     ("read-exported-constant".to_string(), name.clone())
                 } else if v.kind == "use-helper" || v.kind == "use-plus" {
